@@ -105,8 +105,18 @@ def _sig_nested_quotes(case: dict, f: Failure) -> bool:
     twice = opts.fmt(once, o)
     if len(once) != len(twice):
         return False
-    for a, b in zip(once, twice):
-        if a != b and not ((a == "'" and b in "‘’") or (a == '"' and b in "“”")):
+    for i, (a, b) in enumerate(zip(once, twice)):
+        if a == b:
+            continue
+        if not ((a == "'" and b in "‘’") or (a == '"' and b in "“”")):
+            return False
+        # ... and the late conversion lies inside an already converted pair of the OTHER kind, within its paragraph
+        # (a straight pair around a curly pair of the same kind is not this finding)
+        lo = once.rfind("\n\n", 0, i) + 1
+        hi = once.find("\n\n", i)
+        hi = len(once) if hi < 0 else hi
+        op, cl = ("“", "”") if a == "'" else ("‘", "’")
+        if not (op in once[lo:i] and cl in once[i:hi]):
             return False
     o2 = dict(o, smartquotes=False)
     once2 = opts.fmt(case["text"], o2)
